@@ -9,7 +9,7 @@ Two completely enumerated products of small menus:
   presentation product  names {plain, with spaces, with # /* */ inside quotes, UTF-8, apostrophe} x title/source/comment menus x
                      [tie] {none, reversed, rotated} x [nick] {none, nicknames used in ballots/tie/withdrawn} x [droop ...] options {none, one group, one group per option} x
                      layouts {line per ballot, token per line, one line, CRLF, tabs, blank lines} x comments {none, '#' at line ends,
-                     /* */ between tokens, nested, '#' inside a block comment} x trailing junk after the last string x BOM (through a file)
+                     /* */ between tokens, nested, '#' inside a block comment, a quoted word inside a comment} x trailing junk after the last string x BOM (through a file)
   boundary           n in {255, 256, 257} with a ballot ranking candidate n (array typecode switch)
 Oracle: every public attribute of ElectionProfile equals the structure (candidate count, seats, names, title, source, comment, tie order,
 nicknames, withdrawn / undeclared / eligible sets, every kept ballot's multiplier and ranking with withdrawn candidates removed and emptied
@@ -147,6 +147,8 @@ def commented(L):
     yield 'block-tight', [['/*c%d*/' % i] + l for i, l in enumerate(L)]
     yield 'nested', [l + ['/* outer /* inner */ still */'] for l in L]
     yield 'hash-in-block', [l + ['/* box #1 */'] for l in L]
+    yield 'quote-in-block', [l + ['/* listed as "Robert" on the paper */'] for l in L]
+    yield 'quote-in-hash', [(l + ['#', 'aka', '"Bob"']) if not (l and l[0].startswith('"') and not l[-1].endswith('"')) else l for l in L]
     yield 'multiline', [['/*', 'a'], ['b', '*/']] + L + [['#', 'end']]
     yield 'junk-after', L + [['junk', '42', 'more']]
 
@@ -268,9 +270,9 @@ class C15(Check):
                                         L = lines_of(st, wd_style, None, use_nick)
                                         for cname, LC in commented(L):
                                             for lname, text in layouts(LC):
-                                                if cname in ('hash', 'multiline', 'junk-after') and lname == 'one-line':
+                                                if cname in ('hash', 'quote-in-hash', 'multiline', 'junk-after') and lname == 'one-line':
                                                     continue    # a '#' comment needs a line end; not the same file on one line
-                                                if cname in ('hash', 'multiline') and lname == 'token-per-line':
+                                                if cname in ('hash', 'quote-in-hash', 'multiline') and lname == 'token-per-line':
                                                     continue    # '#' comments its own line only
                                                 self.parse_and_compare(st, text, acc, case, 'pres')
                                                 acc.nontrivial_count += 1
